@@ -1,0 +1,13 @@
+//go:build verif
+
+package web
+
+import (
+	"github.com/inbucket/inbucket/v3/pkg/config"
+	"github.com/inbucket/inbucket/v3/pkg/message"
+	"github.com/inbucket/inbucket/v3/pkg/msghub"
+)
+
+// VerifWiring returns the package-level manager, hub and configuration the handlers use, as set by NewServer
+// (verification harness only).
+func VerifWiring() (message.Manager, *msghub.Hub, *config.Root) { return manager, msgHub, rootConfig }
